@@ -108,12 +108,41 @@ def classify(run, case, fails):
     return viol
 
 
-def e2e(run):
+def e2e(run, model):
     drv = vlib.build_driver("h_block_e2e", ["h_block_e2e.c"], wraps=E2E_WRAPS)
     lines = e2e_cases(run)
     outs, crashes = vlib.run_lines_robust(drv, lines, timeout=1500)
     run.cov["e2e_driver_crashes"] = len(crashes)
     nbad = 0
+    # correspondence: the wire traffic and the receivers' decisions against the extracted model
+    mlines, mexp = [], []
+    tie_max = 4200 if run.tier == "quick" else 20000
+    for ln, out in zip(lines, outs):
+        case = blk_e2e.Case(ln)
+        if case.len > tie_max:
+            continue          # (the model cuts slices of a list: quadratic in the body length)
+        w, rcv, obs = blk_e2e.tie_lines(case, out)
+        if w:
+            mlines.append(w)
+            mexp.append((ln, "wire", "k" * (len(w.split()) - 3)))
+        if rcv:
+            mlines.append(rcv)
+            mexp.append((ln, "recv", obs))
+    mout, _ = vlib.run_lines_robust(model, mlines, timeout=1500)
+    ntie = 0
+    for ml, (ln, kind, exp), got in zip(mlines, mexp, mout):
+        run.hist("e2e_tie", kind)
+        if got != exp:
+            ntie += 1
+            if ntie <= 3:
+                what = ("a block message on the wire is not the slice the model cuts" if kind == "wire"
+                        else "the receiver did not do what the reassembly model does")
+                run.violation("end-to-end correspondence: " + what,
+                              "case: %s\nmodel case: %s\nmodel : %s\nimpl  : %s\n" %
+                              (ln, ml[:3000], got[:1500], exp[:1500]), tag="e2etie%d" % ntie,
+                              no_input=True)
+    run.cov["e2e_tie_cases"] = len(mlines)
+    run.cov["e2e_tie_disagreements"] = ntie
     for i, (ln, out) in enumerate(zip(lines, outs)):
         case, fails = blk_e2e.run_oracle(ln, out)
         blocks = out.count(" RX:")
@@ -151,4 +180,4 @@ def main(run):
     model = vlib.build_model()
     drv = vlib.build_driver("h_block", ["h_block.c"])
     leaf(run, model, drv)
-    e2e(run)
+    e2e(run, model)
